@@ -31,7 +31,7 @@ MANIFEST = {
     'text': 'Every Latin-1 character, ~200 BMP boundary characters and 20 '
             'astral characters singly, and all pairs over a 12-character '
             'subset, encoded in utf-8 / latin-1 / cp1252 / utf-16 where '
-            'possible, are inserted as bytes through 36 contexts (top '
+            'possible, are inserted as bytes through 51 contexts (top '
             'level, entity, html_quote full path, in body with 1 and 2 '
             'elements, if, with, let, try with else, try with finally, try '
             'handler, nested in+if, sub-template, adjacent all-bytes pieces, '
@@ -95,10 +95,32 @@ CONTEXTS = {
     'raise-msg': 'a<dtml-try><dtml-raise KeyError><dtml-var x></dtml-raise>'
                  '<dtml-except><dtml-var error_value></dtml-try>b',
     'comment-near': 'a<dtml-comment>c</dtml-comment><dtml-var x>b',
+    # secondary branches whose body has several pieces
+    'in-else-text': 'a<dtml-in none>n<dtml-else>[<dtml-var x>]</dtml-in>b',
+    'inb-else-text': 'a<dtml-in none size=2>n<dtml-else>[<dtml-var x>]'
+                     '</dtml-in>b',
+    'in-previous-else': 'a<dtml-in two size=1 previous>p<dtml-else>'
+                        '[<dtml-var x>]</dtml-in>b',
+    'in-next-else': 'a<dtml-in two size=5 next>n<dtml-else>[<dtml-var x>]'
+                    '</dtml-in>b',
+    'in-next-body': 'a<dtml-in two size=1 next>[<dtml-var x>]</dtml-in>b',
+    'if-else-text': 'a<dtml-if f>n<dtml-else>[<dtml-var x>]</dtml-if>b',
+    'elif-text': 'a<dtml-if f>n<dtml-elif t>[<dtml-var x>]</dtml-if>b',
+    'unless-text': 'a<dtml-unless f>[<dtml-var x>]</dtml-unless>b',
+    'with-text': 'a<dtml-with o>[<dtml-var x>]</dtml-with>b',
+    'let-text': 'a<dtml-let y=x>[<dtml-var y>]</dtml-let>b',
+    'try-else-text': 'a<dtml-try>t<dtml-except>h<dtml-else>[<dtml-var x>]'
+                     '</dtml-try>b',
+    'handler-text': 'a<dtml-try><dtml-var boom><dtml-except>[<dtml-var x>]'
+                    '</dtml-try>b',
+    'finally-text': 'a<dtml-try>t<dtml-finally>[<dtml-var x>]</dtml-try>b',
+    'in-hq-else': 'a<dtml-in none><dtml-else>[&dtml-x;]</dtml-in>b',
+    'nested-text': 'a<dtml-in two><dtml-with o><dtml-if t>[<dtml-var x>]'
+                   '</dtml-if></dtml-with></dtml-in>b',
     'tree': 'a<dtml-tree root><dtml-var x></dtml-tree>b',
     'tree-text': 'a<dtml-tree root>[<dtml-var x>]</dtml-tree>b',
 }
-QUOTING = ('entity', 'hq-full', 'fmt-hq')
+QUOTING = ('entity', 'hq-full', 'fmt-hq', 'in-hq-else')
 
 
 def charset():
